@@ -89,8 +89,31 @@ def make_model(rng):
     directives = []
     if rng.random() < 0.6:
         directives.append({"name": "mark", "args": [{"name": "tag", "type": {"n": "String"}, "default": {"kind": "StringValue", "value": "d"}}], "locations": ["FIELD_DEFINITION", "OBJECT"]})
+    # the same member NAME added by extension to two DIFFERENT types (each type keeps its own set of members)
+    if rng.random() < 0.5:
+        us = [d for d in defs if d["kind"] == "union"]
+        objs_ = [d for d in defs if d["kind"] == "object"]
+        if len(us) >= 2 and objs_:
+            x = rng.choice(objs_)["name"]
+            for u in us:
+                have = u["members"] + [m_ for e in exts if e["kind"] == "union" and e["name"] == u["name"] for m_ in e["members"]]
+                if x in u["members"] and len(u["members"]) >= 2:
+                    u["members"].remove(x); exts.append({"kind": "union", "name": u["name"], "members": [x]})
+                elif x not in have:
+                    exts.append({"kind": "union", "name": u["name"], "members": [x]})
+        if len(objs_) >= 2:
+            for o in rng.sample(objs_, 2):
+                exts.append({"kind": "object", "name": o["name"], "interfaces": [], "fields": [{"name": "sharedExt", "args": [], "type": {"n": "Int"}, "deprecated": None, "hidden": False}]})
+        ins_ = [d for d in defs if d["kind"] == "input"]
+        if len(ins_) >= 2:
+            for o in rng.sample(ins_, 2):
+                exts.append({"kind": "input", "name": o["name"], "fields": [{"name": "sharedExt", "type": {"n": "Int"}, "default": None}]})
+    schema_ext = None
+    if rng.random() < 0.4:
+        # a directive-only `extend schema @stag` somewhere among the other definitions: nothing after it may be lost
+        directives.append({"name": "stag", "args": [], "locations": ["SCHEMA"]}); schema_ext = "stag"
     rng.shuffle(exts)
-    M = {"defs": defs, "exts": exts, "directives": directives, "query": full["query"], "mutation": full.get("mutation"), "subscription": full.get("subscription")}
+    M = {"defs": defs, "exts": exts, "directives": directives, "schema_ext_directive": schema_ext, "query": full["query"], "mutation": full.get("mutation"), "subscription": full.get("subscription")}
     # renamed roots
     if rng.random() < 0.3:
         ren = {"Query": "RootQ"}
@@ -127,6 +150,7 @@ def sdl_chunks(M):
     chunks = [print_def(d) for d in M["defs"]] + [print_def(e, True) for e in M["exts"]]
     for dd in M["directives"]:
         chunks.append(f"directive @{dd['name']}{print_args(dd['args'])} on " + " | ".join(dd["locations"]))
+    if M.get("schema_ext_directive"): chunks.append(f"extend schema @{M['schema_ext_directive']}")
     if M["query"] != "Query" or (M["mutation"] and M["mutation"] != "Mutation"):
         chunks.append("schema { query: " + M["query"] + (f" mutation: {M['mutation']}" if M["mutation"] else "") + (f" subscription: {M['subscription']}" if M["subscription"] else "") + " }")
     return chunks
